@@ -397,6 +397,10 @@ class BaseOrchestrator(ABC):
             self.blocking_control.waiting_for_results(
                 caller_invocation_id, result_invocation_ids
             )
+            # An awaited invocation may have finished (and released its waiters) between the
+            # caller's status check and this call: nothing stays recorded as waiting on it.
+            for final_id in self.filter_final(result_invocation_ids):
+                self.blocking_control.release_waiters(final_id)
 
     def get_blocking_invocations(
         self, max_num_invocation_ids: int
